@@ -214,3 +214,72 @@ func verifHarness_C13_stickyJoinLeave() {
 	}
 	vReach()
 }
+
+// C13 P-step on the movement tracker that keeps the sticky strategy from swapping partitions
+// pairwise: from any ownership of four partitions of one topic by three members, any sequence
+// of 3 (4) reassignment requests "move partition p to member c" carried out the way
+// reassignPartition does (getTheActualPartitionToBeMoved, then processPartitionMovement's
+// movePartition). After every request: the member asked for gained exactly one partition of
+// the topic, the tracker's records equal the net movements (original owner -> current owner)
+// and no two partitions of the topic have moved in opposite directions between the same two
+// members.
+func verifHarness_C13_noPairwiseSwap() {
+	members := []string{"A", "B", "C"}
+	var parts [4]topicPartitionAssignment
+	origin := map[topicPartitionAssignment]string{}
+	owner := map[topicPartitionAssignment]string{}
+	for i := range parts {
+		parts[i] = topicPartitionAssignment{Topic: "t", Partition: int32(i)}
+		m := members[vChoose("owner", 3)]
+		origin[parts[i]], owner[parts[i]] = m, m
+	}
+	pm := partitionMovements{
+		Movements:                 make(map[topicPartitionAssignment]consumerPair),
+		PartitionMovementsByTopic: make(map[string]map[consumerPair]map[topicPartitionAssignment]bool),
+	}
+	K := 3
+	if vTier() > 0 {
+		K = 4
+	}
+	for step := 0; step < K; step++ {
+		p := parts[vChoose("partition", 4)]
+		c := members[vChoose("newOwner", 3)]
+		vAssume(c != owner[p])
+		before := 0
+		for _, q := range parts {
+			if owner[q] == c {
+				before++
+			}
+		}
+		q := pm.getTheActualPartitionToBeMoved(p, owner[p], c)
+		vAssert(q.Topic == "t" && owner[q] != "", "moves-a-partition-of-the-topic")
+		old := owner[q]
+		pm.movePartition(q, old, c)
+		owner[q] = c
+		after := 0
+		for _, r := range parts {
+			if owner[r] == c {
+				after++
+			}
+		}
+		vAssert(after == before+1 || old == c, "requested-member-gains-one-partition")
+		for _, r := range parts {
+			rec, moved := pm.Movements[r]
+			if origin[r] == owner[r] {
+				vAssert(!moved, "no-record-for-a-partition-back-home")
+			} else {
+				vAssert(moved && rec.SrcMemberID == origin[r] && rec.DstMemberID == owner[r], "record-is-the-net-movement")
+			}
+		}
+		for _, r1 := range parts {
+			for _, r2 := range parts {
+				a, ok1 := pm.Movements[r1]
+				b, ok2 := pm.Movements[r2]
+				if ok1 && ok2 {
+					vAssert(!(a.SrcMemberID == b.DstMemberID && a.DstMemberID == b.SrcMemberID), "no-pairwise-swap-within-a-topic")
+				}
+			}
+		}
+	}
+	vReach()
+}
